@@ -975,6 +975,50 @@ func ruleIntWrap(c *Ctx, r *Report) {
 					bounded = true
 				}
 				if !bounded && abs64(k) == 1 {
+					// v <= y together with v != y (same y) is v < y
+					var leq, geq, neq []ssa.Value
+					for f := range facts {
+						cmp, ok := f.cond.(*ssa.BinOp)
+						if !ok {
+							continue
+						}
+						op := cmp.Op
+						var other ssa.Value
+						switch {
+						case c.sameVar(cmp.X, v):
+							other = cmp.Y
+						case c.sameVar(cmp.Y, v):
+							other = cmp.X
+							op = flipOp(op)
+						default:
+							continue
+						}
+						if !f.pol {
+							op = negateOp(op)
+						}
+						switch op {
+						case token.LEQ:
+							leq = append(leq, other)
+						case token.GEQ:
+							geq = append(geq, other)
+						case token.NEQ:
+							neq = append(neq, other)
+						}
+					}
+					for _, ne := range neq {
+						for _, le := range leq {
+							if up && c.sameVar(ne, le) {
+								bounded = true
+							}
+						}
+						for _, ge := range geq {
+							if !up && c.sameVar(ne, ge) {
+								bounded = true
+							}
+						}
+					}
+				}
+				if !bounded && abs64(k) == 1 {
 					for f := range facts {
 						cmp, ok := f.cond.(*ssa.BinOp)
 						if !ok {
